@@ -1,11 +1,17 @@
 #!/bin/bash
-# usage: tools_try_mutant.sh <patch.diff> <ID> [more IDs]   -- applies the patch to /repo, runs quick checks, reverts
+# usage: tools_try_mutant.sh <patch.diff> <ID> [more IDs]
+# Applies the patch in a scratch worktree of /repo's HEAD (never in /repo itself: background runs read /repo), runs the quick checks
+# of the given properties against it (VERIF_REPO), reverts.
 patch=$(readlink -f $1); shift
-if ! git -C /repo diff --quiet; then echo "/repo dirty"; exit 2; fi
-if ! git -C /repo apply --check "$patch" 2>/dev/null; then echo "PATCH DOES NOT APPLY: $patch"; exit 3; fi
-git -C /repo apply "$patch"
+wt=${TRY_WT:-/tmp/wt_try}
+head=$(git -C /repo rev-parse HEAD)
+if [ ! -d $wt ]; then git -C /repo worktree add -q --detach $wt $head || exit 2; fi
+git -C $wt checkout -q -- . ; git -C $wt checkout -q --detach $head
+if ! git -C $wt apply --check "$patch" 2>/dev/null; then echo "PATCH DOES NOT APPLY: $patch"; exit 3; fi
+git -C $wt apply "$patch"
 for id in "$@"; do
-  out=$(cd /verif && VERIF_NO_EVIDENCE=1 timeout 900 /venv/bin/python run_check.py $id 2>&1); rc=$?
-  echo "== $id exit=$rc"; echo "$out" | grep -E "VIOLATION|signature|detail|HARNESS|tier=" | head -12
+  out=$(cd /verif && VERIF_REPO=$wt VERIF_NO_EVIDENCE=1 timeout 1800 /venv/bin/python run_check.py $id 2>&1); rc=$?
+  echo "== $id exit=$rc"
+  echo "$out" | grep -E "VIOLATION|signature|detail|tier=|HARNESS" | head -8 | cut -c1-400
 done
-git -C /repo checkout -- .
+git -C $wt checkout -q -- .
